@@ -358,6 +358,11 @@ def curated_ctx():
         "j": T(join=-1, next=[dict(pub=[["tp", "ctx:p"], ["tq", "ctx:q"], ["ts", "ctx:s"]], do=["z"])]),
         "z": T()}, vars=[["p", 0], ["q", 0], ["s", 0], ["tp", 0], ["tq", 0], ["ts", 0]],
         output=[["op", "ctx:tp"], ["oq", "ctx:tq"], ["os", "ctx:ts"]]))
+    # two concurrent branches write the same variable and both end in a terminal record (finding S20)
+    out.append(D.wf("concurrent_terminal_writers", {
+        "t1": T(next=[dict(when="succeeded", pub=[["y", "ctx:x"]], do=["noop"])]),
+        "o2": T(next=[dict(when="completed", pub=[["y", "inc:x"]], do=["g3"])]),
+        "g3": T()}, vars=[["x", 0], ["y", 0]], output=[["ox", "ctx:x"], ["oy", "ctx:y"]]))
     out.append(D.wf("independent_join", {
         "t1": T(next=[dict(do=["t2", "t3"])]),
         "t2": T(next=[dict(pub=[["a", "res"]], do=["t4"])]),
